@@ -1140,6 +1140,12 @@ impl<'a> Run<'a> {
     /// C13: end the populating session, optionally mark the volume dirty / the FS-info count unknown by raw edits,
     /// and start the read-only session whose writes are judged
     pub fn begin_readonly(&mut self, dirty: bool, fsinfo_unknown: bool) -> VResult<()> {
+        self.begin_readonly_with(dirty, fsinfo_unknown, None, None)
+    }
+
+    /// `hint` / `count`: raw values to store in the FS-info next-free / free-count fields first (a foreign volume
+    /// may carry anything there)
+    pub fn begin_readonly_with(&mut self, dirty: bool, fsinfo_unknown: bool, hint: Option<u32>, count: Option<u32>) -> VResult<()> {
         self.close_all()?;
         if let Some(sess) = self.sess.take() {
             let _ = guard(move || sess.unmount());
@@ -1153,6 +1159,14 @@ impl<'a> Run<'a> {
             }
             if fsinfo_unknown && g.width == 32 {
                 d.store.write_at(g.fsinfo_off() + 488, &0xFFFF_FFFFu32.to_le_bytes());
+            }
+            if g.width == 32 {
+                if let Some(h) = hint {
+                    d.store.write_at(g.fsinfo_off() + 492, &h.to_le_bytes());
+                }
+                if let Some(c) = count {
+                    d.store.write_at(g.fsinfo_off() + 488, &c.to_le_bytes());
+                }
             }
         });
         let (cnt, st) = self.dev.with_store(|s| (refdec::rd32(s, g.fsinfo_off() + 488), refdec::rd8(s, g.status_off())));
@@ -1907,11 +1921,27 @@ impl<'a> Run<'a> {
     /// absolute model paths an op names (for directories: every directory on those paths may be updated),
     /// and paths of files whose handle the op uses
     fn op_scope(&self, op: &Op) -> (Vec<String>, Vec<String>) {
+        // resolve the path through the model (components may be given by alias or in another case) so that the
+        // scope names objects the way the decoder's ownership map does
         let abs = |via: u8, p: &str| -> String {
-            let base = self.model.path_of(self.via_node(via));
+            let mut node = self.via_node(via);
             let comps: Vec<&str> = p.split('/').filter(|c| !c.is_empty()).collect();
-            let mut s = if base == "/" { String::new() } else { base };
+            let mut s = self.model.path_of(node);
+            if s == "/" {
+                s = String::new();
+            }
+            let mut resolving = true;
             for c in comps {
+                if resolving {
+                    match self.model.lookup(node, c) {
+                        Some(n) => {
+                            node = n;
+                            s = self.model.path_of(n);
+                            continue;
+                        }
+                        None => resolving = false,
+                    }
+                }
                 s.push('/');
                 s.push_str(c);
             }
